@@ -17,7 +17,7 @@ import (
 func propC13() *fw.Prop {
 	return &fw.Prop{
 		ID: "C13", Level: "exploration",
-		Rule:        "(a) portion texts: exhaustive n/d, n /d, n/ d, n / d for digit strings of length ≤ 2 (thorough ≤ 3) incl. leading zeros with value in [0,1] and d ≠ 0, exhaustive p% and p.q% for |p| ≤ 3, |q| ≤ 2 (thorough 3) with value ≤ 100%, random numerals up to 40 digits; each text is used as a literal and as a portion variable and observed twice: as the value handed to set_tx_meta and as the credits of `send [X d] … {T to @a remaining to @b}` with d a multiple of the reduced denominator; oracle = hand-written base-ten reading. (b) round trips: values of the six types (numbers/monetaries of any sign up to 10^40, accounts and assets of the literal grammar, arbitrary valid-UTF-8 strings, portions) are written by script 1 with set_account_meta and set_tx_meta; script 2 reads the stored text back through a meta()-origin variable and through a plain variable of the same type and re-exports it; values must be identical, the text must be a fixed point, and the JSON of the transaction metadata must decode to the account-metadata text. Distinct = texts whose decimal reading differs from their C-style (octal/hex) reading or that exceed 64 bits, plus all distinct round-tripped values.",
+		Rule:        "(a) portion texts: exhaustive n/d, n /d, n/ d, n / d for digit strings of length ≤ 2 (thorough ≤ 3) incl. leading zeros with value in [0,1] and d ≠ 0, exhaustive p% and p.q% for |p| ≤ 3, |q| ≤ 2 (thorough 3) with value ≤ 100%, random numerals up to 40 digits; each text is used as a literal and as a portion variable and observed twice: as the value handed to set_tx_meta and as the credits of `send [X d] … {T to @a remaining to @b}` with d a multiple of the reduced denominator; oracle = hand-written base-ten reading. (b) round trips: values of the six types (numbers/monetaries of any sign up to 10^40, accounts and assets of the literal grammar, arbitrary valid-UTF-8 strings, portions) are written by script 1 with set_account_meta and set_tx_meta; script 2 reads the stored text back through a meta()-origin variable and through a plain variable of the same type and re-exports it; values must be identical, the text must be a fixed point, and the JSON of the transaction metadata must decode to the account-metadata text. Distinct = texts whose decimal reading differs from their C-style (octal/hex) reading or that exceed 64 bits, plus all distinct round-tripped values. Added later: the value is kept under varied (account, key) shapes; a decoy under the other split of the same colon-joined text and a sibling key of the same account must be read as themselves; the reading script's variables map may hold entries named like the metadata-backed variables.",
 		Assumptions: []string{trustedBase},
 		Require:     []string{"portion_texts_checked", "texts_where_octal_reading_differs", "round_trips_checked", "exhaustive_spaces_completed", "values_beyond_64_bits", "arithmetic_cases"},
 		Run:         runC13,
